@@ -339,7 +339,12 @@ type vRun struct {
 	idxWait  time.Duration
 }
 
+type vAuth = map[channel.Key]channel.Channel
+type vEngs = map[int]map[channel.Key]cesium.Channel
+
 type vDiff struct {
+	// still re-evaluates the difference on a later observation
+	still     func(auth vAuth, engs vEngs) bool
 	sig, what string
 	step      int
 	reported  bool
@@ -796,6 +801,15 @@ func vReplay(ctx context.Context, h vHist, timeout time.Duration) (out vOut) {
 		r.everUsed[k] = 0
 	}
 	r.prevMeta = m0
+	// "ctl<n>" addresses node n's internal control channel (spec key (n, 0): the last
+	// pre-existing local key of that leaseholder) in rename requests that must be refused
+	for k := 1; k <= r.n; k++ {
+		key := channel.NewKey(node.Key(k), channel.LocalKey(r.base[k]))
+		if ch, ok := m0[key]; !ok || !ch.Internal {
+			return vOut{ID: h.ID, R: "inconclusive", Note: fmt.Sprintf("baseline: node %d has no internal channel under key %d", k, key)}
+		}
+		r.keyOf["ctl"+strconv.Itoa(k)] = key
+	}
 	var drift *vDrift
 	setDrift := func(step int, what, exp, act string) {
 		if drift == nil {
@@ -962,10 +976,10 @@ func vReplay(ctx context.Context, h vHist, timeout time.Duration) (out vOut) {
 		}
 		// ---- (b) cross-store: metadata leased to n == engine[n], field by field
 		now := map[string]bool{}
-		open := func(id, sig, what string) {
+		open := func(id, sig, what string, still func(vAuth, vEngs) bool) {
 			now[id] = true
 			if _, seen := r.diffs[id]; !seen {
-				r.diffs[id] = &vDiff{sig: sig, what: what, step: step, tolerated: s.Cut > 0 && !ok, fromFail: !ok}
+				r.diffs[id] = &vDiff{sig: sig, what: what, step: step, tolerated: s.Cut > 0 && !ok, fromFail: !ok, still: still}
 			}
 		}
 		// other-lease: the request has an entry of that name on a different leaseholder
@@ -999,13 +1013,15 @@ func vReplay(ctx context.Context, h vHist, timeout time.Duration) (out vOut) {
 				mch, inMeta := auth[key]
 				if int(key.Leaseholder()) != k {
 					open(fmt.Sprintf("wrong-engine %d@%d", key, k), "C15 CrossStore engine-holds-foreign-key kind="+vEngKind(ech)+" after="+after,
-						fmt.Sprintf("step %d (%s): node %d's engine holds channel %q key %d whose leaseholder is %d", step, after, k, ech.Name, key, key.Leaseholder()))
+						fmt.Sprintf("step %d (%s): node %d's engine holds channel %q key %d whose leaseholder is %d", step, after, k, ech.Name, key, key.Leaseholder()),
+						func(_ vAuth, e vEngs) bool { _, in := e[k][key]; return in })
 					continue
 				}
 				if !inMeta {
 					open(fmt.Sprintf("extra %d", key), "C15 CrossStore engine-extra kind="+vEngKind(ech)+" after="+after+xlease(ech.Name, key),
 						fmt.Sprintf("first seen at step %d (%s through node %d): node %d's engine has channel %q key %d (%s) that cluster metadata does not have",
-							step, after, s.G, k, ech.Name, key, vEngKind(ech)))
+							step, after, s.G, k, ech.Name, key, vEngKind(ech)),
+						func(a vAuth, e vEngs) bool { _, in := e[k][key]; _, m := a[key]; return in && !m })
 					continue
 				}
 				var f []string
@@ -1027,7 +1043,13 @@ func vReplay(ctx context.Context, h vHist, timeout time.Duration) (out vOut) {
 				if len(f) > 0 {
 					open(fmt.Sprintf("field %d %v", key, f), "C15 CrossStore field-mismatch fields="+strings.Join(f, ",")+" kind="+vEngKind(ech)+" after="+after,
 						fmt.Sprintf("first seen at step %d (%s): channel key %d metadata={name %q dt %s index %d isidx %v virt %v} engine={name %q dt %s index %d isidx %v virt %v}",
-							step, after, key, mch.Name, mch.DataType, mch.Index(), mch.IsIndex, mch.Virtual, ech.Name, ech.DataType, ech.Index, ech.IsIndex, ech.Virtual))
+							step, after, key, mch.Name, mch.DataType, mch.Index(), mch.IsIndex, mch.Virtual, ech.Name, ech.DataType, ech.Index, ech.IsIndex, ech.Virtual),
+						func(a vAuth, e vEngs) bool {
+							m, inM := a[key]
+							c, inE := e[k][key]
+							return inM && inE && (m.Name != c.Name || m.DataType != c.DataType || m.IsIndex != c.IsIndex ||
+								m.Virtual != c.Virtual || uint32(m.Index()) != c.Index)
+						})
 				}
 			}
 		}
@@ -1039,7 +1061,8 @@ func vReplay(ctx context.Context, h vHist, timeout time.Duration) (out vOut) {
 			if _, inEng := engs[l][key]; !inEng {
 				open(fmt.Sprintf("missing %d", key), "C15 CrossStore engine-missing kind="+vKind(mch)+" after="+after,
 					fmt.Sprintf("first seen at step %d (%s through node %d): metadata has channel %q key %d (%s) but leaseholder %d's engine does not",
-						step, after, s.G, mch.Name, key, vKind(mch), l))
+						step, after, s.G, mch.Name, key, vKind(mch), l),
+					func(a vAuth, e vEngs) bool { _, in := e[l][key]; _, m := a[key]; return m && !in })
 			}
 		}
 		for id, d := range r.diffs {
@@ -1189,8 +1212,22 @@ func vReplay(ctx context.Context, h vHist, timeout time.Duration) (out vOut) {
 		ret, _, perr := r.exec(ps)
 		if perr == nil {
 			r.stats["probes"]++
-			if _, err := r.quiesce(); err != nil {
+			pauth, err := r.quiesce()
+			if err != nil {
 				return vOut{ID: h.ID, R: "inconclusive", Note: fmt.Sprintf("probe: %v", err), Log: r.log}
+			}
+			// the probe is a successful request: what a FAILED last request left behind and
+			// is still there now is judged like after any other successful request
+			pengs := vEngs{}
+			for k := 1; k <= r.n; k++ {
+				pengs[k] = r.engineOn(k)
+			}
+			for _, d := range r.diffs {
+				if !d.reported && !d.tolerated && d.still != nil && d.still(pauth, pengs) {
+					d.reported = true
+					r.stats["judged-at-closing-probe"]++
+					r.report(step, d.sig, d.what+"; still so after the successful closing probe create")
+				}
 			}
 			for _, ch := range ret {
 				key := ch.Key()
